@@ -240,6 +240,9 @@ class C06(Prop):
                 cases.append({"par": par, "kind": kind, "sub": sub, "seed": rng.randrange(10 ** 9), "herm": True,
                               "coeffs": j % 4 == 0, "ttno_shuffle": j % 2 == 0, "mode": "default" if j % 5 == 0 else "expm",
                               "nsteps": rng.choice([1, 2, 3]) if len(par) <= 5 else 1, "nterms": rng.choice([1, 2, 3])})
+                if j % 10 == 5:
+                    # default mode through the documented builder tdvp(...) with its default configuration
+                    cases[-1]["builder"] = True
         for rep in range(ctx.scale(8, 60) * budget_scale):
             d = rng.choice([2, 3])
             for kind in ("tdvp1", "tdvp2"):
